@@ -51,6 +51,22 @@ same node, of another node of the same graph, of a sibling nested graph, of a gr
 one; GRAPH and GRAPHS; always well scoped and acyclic) - the IR allows it and the repository's tests do it for the
 two branches of an If - so the analysis meets the same graph object on several paths with different enclosing graphs.
 
+Monitor 3 (histories on the same objects).  The statement quantifies over all graphs - also one that was cut before and
+has been edited in place since.  Per model, on a fresh copy: for each of ~6 edits drawn from the public editing alphabet of
+vfpy/c18_edits.py (re-point a node input - in a nested body: from/to a captured outer value or a local one, at any depth;
+insert an Identity on a local or outer value; bypass-and-remove a node; move a node within its legal range; rename a
+value / graph input / initializer; give an initializer another tensor; register a new initializer here or in an enclosing
+graph and use it; exchange the Graph objects of two attributes of a node; re-point an output of a nested graph) the
+harness extracts cuts whose region holds the edit site (on the root, a view of it, or the nested body on the path to the
+site), APPLIES the edit, and extracts THE SAME cuts again from the same objects (plus a fresh random cut); executable
+models are finally serialised as edited, must still pass the checker, and their regions are executed against the edited
+source.  Every call is judged by the same oracle, recomputed from the containers as they are at that call.  All edits keep
+the model SSA, well scoped, topologically sorted and (executable models) type-correct.  A violation is shrunk by ddmin
+over the earlier calls and edits, each test on a fresh model: a failure that needs an earlier call AND a later edit is
+``extract|stale-after-edit|<clause>|<detail>|<edit kinds>`` (state left behind by a call did not follow the edit), one
+that needs only edits ``extract|<clause>|<detail>|on-edited-model|<edit kinds>``, one that needs only an earlier call
+``extract|depends-on-earlier-extract-call|...``, one that needs nothing is reported as an ordinary cut.
+
 Signatures are mechanism-level and derived from the *shrunk* cut (outputs/inputs dropped, region cut down by
 extra boundary inputs, while the same clause fails): ``extract|<clause>|<class>`` / ``implicit-usage|...``.
 """
@@ -61,6 +77,8 @@ import itertools
 import logging
 import os
 import random
+import time
+import types
 import warnings
 from collections import Counter
 
@@ -68,6 +86,7 @@ import onnx_ir as ir
 from onnx_ir.analysis import analyze_implicit_usage
 from onnx_ir.convenience import extract
 
+from vfpy import c18_edits as ED
 from vfpy import c18_exec as CX
 from vfpy import c18_oracle as OR
 from vfpy import gen_exec as GE
@@ -83,7 +102,10 @@ RULE = ("a case is one generated model: 'exec-small' (gen_exec, 0-3 chosen featu
         "attributes, 0-4 nested Graph objects referenced from a second attribute elsewhere in their root; structural judgement only).  One evaluation = one graph-like (graph / function / full view / sub-view / "
         "nested body) with its batch of cuts, or one capture analysis of a root graph; non-trivial = the batch contained a "
         "covered cut whose region has >= 2 nodes and needs a value captured by a nested body, or an uncovered cut (extraction); "
-        "some nested graph captures a value used deeper than itself (analysis); distinct = hash of (model key, graph-like)")
+        "some nested graph captures a value used deeper than itself (analysis); distinct = hash of (model key, graph-like).  "
+        "Each model additionally gives one 'history' evaluation on a fresh copy: ~6 in-place edits through the public API "
+        "(see Monitor 3), each preceded and followed by extraction of the same cuts from the same objects; non-trivial = an edit "
+        "changed what a nested graph captures and a cut whose region held the edit site was extracted before and after it")
 ASSUMPTIONS = [
     "the oracle recomputes producers, definition sites, initializer-ness and captures from the public containers "
     "(never Value.producer()/graph/is_initializer(), RecursiveGraphIterator, the cloner or the functions under test)",
@@ -99,6 +121,10 @@ ASSUMPTIONS = [
     "views list all initializers of the underlying graph, so initializer-ness by container and by flag coincide",
     "for a nested body 'initializer' includes the initializers (by container) of the graphs that enclose it; a value of an "
     "enclosing graph cannot be given as boundary input (report-only when tried), so a region needing a non-initializer one is uncovered",
+    "histories: the edits of vfpy/c18_edits.py (public editing API only; preconditions checked on the scope tree the oracle "
+    "recomputes from the containers) leave a legal model - SSA, well scoped, topologically sorted; executable models stay "
+    "type-correct (a value is only replaced by one of equal element type and static shape) and are re-checked by onnx.checker "
+    "before they are executed; replaying a history on a freshly built model reaches the same state (ids differ)",
     "a model in which one Graph object is held by several attributes is a legal IR state (no ownership link from a Graph to an "
     "attribute exists); the shared reference is only added where every value the graph captures is visible and defined earlier",
 ]
@@ -150,13 +176,22 @@ def plan(tier: str) -> dict:
             "implicit_nested_via:GRAPHS": 8 * f,
             "implicit_shared_graph_objects": 20 * f,
             "implicit_shared_capturing_graph_objects_held_by_different_graphs": 4 * f,
+            # extract -> edit the same objects -> extract again: per model ~6 edits, ~11 re-cuts, ~2.5 re-cuts after a capture
+            # change in the region, ~17 executed comparisons; floors = what ~25 models give (the floors above: ~30-45 models)
+            "history_edits_applied": 150 * f,
+            "history_edits_changing_what_a_nested_graph_captures": 35 * f,
+            "history_recuts_same_cut_after_edit": 280 * f,
+            "history_recuts_after_capture_change_in_region": 60 * f,
+            "history_exec_compared": 300 * f,
         },
         "min_nontrivial": 150 * f,
         "params": {"cuts_big": 40 if quick else 48, "cuts_capturing_nested": 12 if quick else 16, "exec_per_graphlike": 14 if quick else 18, "ort_per_model": 6 if quick else 8,
                    # allowance for ALL-cuts enumeration of 5..7-value graph-likes (<= 4 values: always): a start credit plus
                    # a credit per case, so that the enumeration is spread over the shard instead of eating its first minute
                    "exhaustive_start": 6000 if quick else 20000, "exhaustive_per_case": 260 if quick else 130,
-                   "exhaustive_cap": 20000},
+                   "exhaustive_cap": 20000,
+                   # per model: edits of one history, cuts made before AND after each edit, executed cuts of the edited model
+                   "history_edits": 6, "history_cuts": 2, "history_exec_cuts": 6, "history_ort_cuts": 2},
     }
 
 
@@ -906,7 +941,8 @@ def _used_only_below_shared(scope: OR.Scope, vid: int, occurrences: Counter) -> 
     return not clean_use(scope)
 
 
-def check_implicit(ctx, model_key: dict, root_ref: list, root_graph, counts: Counter, path: list | None = None) -> bool:
+def check_implicit(ctx, model_key: dict, root_ref: list, root_graph, counts: Counter, path: list | None = None,
+                   fire_to=None) -> bool:
     """Judge analyze_implicit_usage(root_graph).  Returns True when some capture is used deeper than its graph.
     ``path`` (non-empty) = the analysed graph is itself nested below ``root_ref``; values defined above it are then
     outer-scope values of every graph below it like any other."""
@@ -923,6 +959,9 @@ def check_implicit(ctx, model_key: dict, root_ref: list, root_graph, counts: Cou
     replay = dict(model_key, task="implicit", root=root_ref, path=path)
 
     def fire(sig, msg):
+        if fire_to is not None:  # a call inside a history: the history reports (and shrinks) it
+            fire_to(sig, f"analyze_implicit_usage({root_ref}{' nested graph at ' + str(path) if path else ''}): {msg}")
+            return
         ctx.count("raw:implicit")
         ctx.violation(sig, f"analyze_implicit_usage({root_ref}{' nested graph at ' + str(path) if path else ''}): {msg}\n"
                            f"  model: {model_key}", replay)
@@ -998,7 +1037,7 @@ def check_implicit(ctx, model_key: dict, root_ref: list, root_graph, counts: Cou
     # the same analysis rooted at nested graphs that have nested graphs of their own
     if not path:
         for sc in [x for x in tree.walk() if x.parent is not None and x.children][:3]:
-            check_implicit(ctx, model_key, root_ref, sc.graph, counts, sc.path())
+            check_implicit(ctx, model_key, root_ref, sc.graph, counts, sc.path(), fire_to)
     return deeper
 
 
@@ -1158,6 +1197,426 @@ def graphlike_refs(model: ir.Model, rng: random.Random, flavour: str) -> list[di
 
 
 # =================================================================================================
+# histories: extract -> edit the same objects in place -> extract again
+# =================================================================================================
+def history_key(key: dict) -> dict:
+    """Model key of the model a history runs on (structural models without shared Graph objects: an edit inside a graph
+    that is reachable on two paths would have to be well scoped on both)."""
+    return dict(key, share=0) if key["kind"] == "ir" else dict(key)
+
+
+def build_history_model(hkey: dict) -> ir.Model:
+    """A FRESH model (never cut before), so that a recorded history is self-contained."""
+    if hkey["kind"] == "exec":
+        return GE.model_from_seed(hkey["seed"], hkey["size"], hkey["features"])[0]
+    return build_model(hkey)[0]
+
+
+def clause_detail(clause: str, info: dict) -> str:
+    """The part of a violation that names the mechanism independently of the cut it was seen on."""
+    if clause == "uncovered-not-rejected":
+        return "+".join(info["classes"])
+    if clause == "covered-but-raised":
+        return info["exc"]
+    if clause == "node-set":
+        return "+".join(info["why"])
+    if clause == "node-content":
+        return info["field"]
+    if clause in ("initializer-missing", "initializer-extra"):
+        return info["why"]
+    if clause == "shares-object":
+        return f"{info['kind']}|{info['role']}"
+    if clause == "dangling-input":
+        return "+".join(info["where"])
+    return ""
+
+
+def _resolve_cut_step(model: ir.Model, step: dict):
+    try:
+        gl = resolve_gl(model, step["gl"])
+    except (IndexError, KeyError, AttributeError, TypeError):
+        return None
+    if gl is None:
+        return None
+    try:
+        return gl, [gl.by_name[n] for n in step["inputs"]], [gl.by_name[n] for n in step["outputs"]]
+    except KeyError:
+        return None
+
+
+def _edited_source(model: ir.Model, seed, gl: OR.GraphLike, counts: Counter):
+    """(env, source-or-None) for the CURRENT state of an executable model: the edited model is serialised, must
+    still pass the checker, and is instrumented and run like the pristine one."""
+    env = Env(model, True)
+    try:
+        proto = ir.to_proto(model)
+    except Exception as e:  # noqa: BLE001 - serialisation is not this property's subject
+        counts["edited_model_not_serialisable:" + type(e).__name__] += 1
+        return env, None
+    msg = GE.check(proto)
+    if msg is not None:
+        counts["edited_model_rejected_by_checker:" + GE.checker_class(msg)] += 1
+        return env, None
+    counts["edited_models_checker_ok"] += 1
+    fake = types.SimpleNamespace(proto=proto, info={"seed": seed})
+    return env, get_source(env, fake, gl, random.Random(0), counts)
+
+
+def _exec_runner(env: Env, source, outs, events: list[str], ort: bool = True):
+    evs = [e for e in GE.EVALUATORS if source.ran(e)]
+    if not ort and "ref" in evs:
+        evs = ["ref"]  # onnxruntime sessions are the expensive part: a bounded number per history
+
+    def run_exec(o):
+        v = exec_clause(env, source, outs, o.result, evs, events)
+        if v is not None:
+            o.violations.append(v)
+    return run_exec
+
+
+def replay_steps(hkey: dict, steps: list[dict], typed: bool) -> ir.Model:
+    """A fresh model taken through the recorded history: earlier extract / analysis calls are only MADE (they are what may
+    leave state behind), edits are applied where their preconditions hold."""
+    model = build_history_model(hkey)
+    for st in steps:
+        if st["t"] == "edit":
+            ED.apply(model, st["edit"], typed)
+        elif st["t"] == "implicit":
+            try:
+                obj = _root_obj(model, st["root"])
+                analyze_implicit_usage(obj.graph if isinstance(obj, ir.Function) else obj)
+            except Exception:  # noqa: BLE001 - judged when it was made; here it only has to have been called
+                pass
+        else:
+            r = _resolve_cut_step(model, st)
+            if r is None:
+                continue
+            gl, ins, outs = r
+            try:
+                extract(gl.obj, inputs=[v.name if b else v for v, b in zip(ins, st["in_by_name"])],
+                        outputs=[v.name if b else v for v, b in zip(outs, st["out_by_name"])])
+            except Exception:  # noqa: BLE001
+                pass
+    return model
+
+
+def replay_history(hkey: dict, steps: list[dict], final: dict, typed: bool):
+    """The history on a fresh model, the final call judged.  For a final cut: (outcome, gl, ins, outs, env) or None when
+    the cut cannot be named any more; for a final capture analysis: the list of (signature, message) it fires."""
+    model = replay_steps(hkey, steps, typed)
+    if final.get("t") == "implicit":
+        try:
+            obj = _root_obj(model, final["root"])
+        except IndexError:
+            return []
+        fired: list[tuple[str, str]] = []
+        check_implicit(None, hkey, final["root"], obj.graph if isinstance(obj, ir.Function) else obj, Counter(),
+                       fire_to=lambda sig, msg: fired.append((sig, msg)))
+        return fired
+    r = _resolve_cut_step(model, final)
+    if r is None:
+        return None
+    gl, ins, outs = r
+    run_exec = None
+    if final.get("exec") and typed:
+        env, source = _edited_source(model, hkey["seed"], gl, Counter())
+        if source is not None:
+            run_exec = _exec_runner(env, source, outs, [], ort=bool(final.get("ort", True)))
+    else:
+        env = Env(model, False)
+    return judge_cut(env, gl, ins, outs, final["in_by_name"], final["out_by_name"], run_exec=run_exec), gl, ins, outs, env
+
+
+def _describe_steps(steps: list[dict]) -> str:
+    out = []
+    for st in steps:
+        if st["t"] == "edit":
+            out.append(f"edit {st['kind']}: { {k: v for k, v in st['edit'].items() if k != 'expect'} }")
+        elif st["t"] == "implicit":
+            out.append(f"analyze_implicit_usage({st['root']})")
+        else:
+            out.append(f"extract(gl={st['gl']}, inputs={st['inputs']}, outputs={st['outputs']})")
+    return "; ".join(out)
+
+
+def shrink_history(steps: list[dict], fails, prefix: str, base: str):
+    """(minimal history, signature or None).  ddmin over the earlier calls and edits, each test on a fresh model.  The
+    mechanism: needs an earlier call AND a later edit -> state left behind by a call did not follow the edit; needs only
+    edits -> wrong on a model the public editing API produces; needs only earlier calls -> depends on an earlier call;
+    needs nothing (None) -> an ordinary failure on the pristine model."""
+    if not fails(steps):
+        # seen on the live objects, not reproduced by the recorded calls on a fresh model: something outside the
+        # history (an earlier model of this process) is needed
+        return steps, f"{prefix}|needs-state-from-earlier-models|{base}"
+    if fails([]):
+        return [], None
+    small = ddmin(steps, fails, max_tests=150)
+    first_call = next((i for i, st in enumerate(small) if st["t"] != "edit"), None)
+    all_kinds = "+".join(sorted({st["kind"] for st in small if st["t"] == "edit"}))
+    if first_call is None:
+        return small, f"{prefix}|{base}|on-edited-model|{all_kinds}"
+    # the edits made AFTER the first call that is needed are what the state left behind did not follow
+    after = "+".join(sorted({st["kind"] for st in small[first_call:] if st["t"] == "edit"}))
+    if after:
+        return small, f"{prefix}|stale-after-edit|{base}|{after}"
+    return small, f"{prefix}|depends-on-earlier-call|{base}" + (f"|on-edited-model|{all_kinds}" if all_kinds else "")
+
+
+def _last_edit(steps: list[dict]):
+    return next((st["kind"] for st in reversed(steps) if st["t"] == "edit"), None)
+
+
+def report_history(ctx, hkey: dict, typed: bool, steps: list[dict], final: dict, outcome: Outcome, state: dict) -> None:
+    """A judged cut of a history violated a clause: shrink the history and name the mechanism (see shrink_history)."""
+    reported: dict = state["hist_reported"]
+    done: set[str] = set()
+    for clause, info in outcome.violations:
+        if clause in done:
+            continue
+        done.add(clause)
+        detail = clause_detail(clause, info)
+        pre = (clause, detail, _last_edit(steps))
+        ctx.count("raw:history:" + clause)
+        if pre in reported:
+            ctx.count("violations_counted_without_shrinking_again")
+            ctx.violation(reported[pre], "", None)
+            continue
+
+        def fails(sub, clause=clause, detail=detail):
+            got = replay_history(hkey, sub, final, typed)
+            return got is not None and any(c == clause and clause_detail(c, i) == detail for c, i in got[0].violations)
+
+        base = "|".join(x for x in (clause, detail) if x)
+        small, sig = shrink_history(steps, fails, "extract", base)
+        if sig is None:
+            # no history needed: an ordinary extraction failure on the pristine model - the ordinary report names it
+            o2, gl, ins, outs, env = replay_history(hkey, [], final, typed)
+
+            def make_judge(e, g, with_exec=False):
+                return lambda i, o, fi, fo: judge_cut(e, g, i, o, fi, fo)
+            n0 = len(ctx.violations)
+            report(ctx, hkey, env, gl, ins, outs, final["in_by_name"], final["out_by_name"], o2, make_judge)
+            reported[pre] = ctx.violations[-1]["signature"] if len(ctx.violations) > n0 else "extract|" + base
+            continue
+        reported[pre] = sig
+        replay = dict(hkey, task="history", steps=small, final=final, clause=clause, detail=detail, signature=sig)
+        msg = (f"{clause} ({detail}) at the LAST call of: {_describe_steps(small + [dict(final, t='cut')])}\n  details: {info}\n"
+               f"  every call is made on the same model objects; the oracle recomputes the region from the containers as they are at the last call\n"
+               f"  model: { {k: v for k, v in hkey.items() if k != 'features'} }")
+        ctx.violation(sig, msg, replay)
+
+
+def report_history_implicit(ctx, hkey: dict, typed: bool, steps: list[dict], final: dict, fired: list, state: dict) -> None:
+    """A judged capture analysis of a history fired: shrink the history and name the mechanism."""
+    reported: dict = state["hist_reported"]
+    for sig0, msg0 in dict(fired).items():
+        pre = ("implicit", sig0, _last_edit(steps))
+        ctx.count("raw:history:implicit")
+        if pre in reported:
+            ctx.count("violations_counted_without_shrinking_again")
+            ctx.violation(reported[pre], "", None)
+            continue
+
+        def fails(sub, sig0=sig0):
+            return any(s2 == sig0 for s2, _m in replay_history(hkey, sub, final, typed))
+
+        base = sig0.split("|", 1)[1] if "|" in sig0 else sig0
+        small, sig = shrink_history(steps, fails, "implicit-usage", base)
+        if sig is None:
+            sig = sig0
+            replay = dict(hkey, task="implicit", root=final["root"], path=[])
+        else:
+            replay = dict(hkey, task="history", steps=small, final=final, clause="implicit", detail=sig0, signature=sig)
+        reported[pre] = sig
+        ctx.violation(sig, f"{msg0}\n  at the LAST call of: {_describe_steps(small + [final])}\n"
+                           f"  every call is made on the same model objects; the oracle recomputes the captures from the containers as "
+                           f"they are at the last call\n  model: { {k: v for k, v in hkey.items() if k != 'features'} }", replay)
+
+
+def _cuts_holding(gl: OR.GraphLike, rng: random.Random, target: int | None, want: int) -> list:
+    """Up to ``want`` cuts of ``gl``, preferring covered cuts whose region contains node ``target``."""
+    tnode = gl.nodes[target] if target is not None and 0 <= target < len(gl.nodes) else None
+    good, other = [], []
+    for _ in range(8):
+        ins, outs, strategy = random_cut(gl, rng)
+        c = OR.closure(gl, ins, outs)
+        holds = tnode is not None and any(n is tnode for n in c.nodes)
+        (good if holds and c.covered else other).append((ins, outs, holds))
+        if len(good) >= want:
+            break
+    if len(good) < want and tnode is not None:
+        outs = [o for o in tnode.outputs if o.name][:1]
+        if outs:
+            ins = [v for v in OR.closure(gl, [], outs).uncovered.values() if v.name and id(v) in gl.top_defined]
+            good.append((ins, outs, True))
+    other.sort(key=lambda t: not t[2])
+    return (good + other)[:want]
+
+
+def run_history(ctx, key: dict, case, rng: random.Random, state: dict) -> None:
+    counts: Counter = state["counts"]
+    params = ctx.params
+    hkey = history_key(key)
+    typed = key["kind"] == "exec"
+    model = build_history_model(hkey)
+    steps: list[dict] = []
+    hc: Counter = Counter()
+    nontrivial = False
+
+    def judge(gl, env, ins, outs, in_f, out_f, phase, run_exec=None, exec_flag=False, ort=True) -> bool:
+        """Judge one call of the history, record it; True when it was a violation (reported)."""
+        final = {"gl": gl.ref, "inputs": [v.name for v in ins], "outputs": [v.name for v in outs],
+                 "in_by_name": list(in_f), "out_by_name": list(out_f), "exec": exec_flag, "ort": ort}
+        outcome = judge_cut(env, gl, ins, outs, in_f, out_f, run_exec=run_exec)
+        if outcome.judged:
+            hc["cuts_judged"] += 1
+            hc["cuts_judged:" + phase] += 1
+            hc["cuts_" + ("covered" if outcome.closure.covered else "uncovered") + ":" + phase] += 1
+            if "regions_needing_capture" in outcome.events:
+                hc["regions_needing_capture:" + phase] += 1
+        else:
+            hc["cuts_report_only"] += 1
+        if outcome.violations:
+            report_history(ctx, hkey, typed, list(steps), final, outcome, state)
+            return True
+        steps.append(dict(final, t="cut"))
+        return False
+
+    def analyse(root, phase) -> bool:
+        """Judge one capture analysis of the history, record it; True when it fired (reported)."""
+        obj = _root_obj(model, root)
+        fired: list[tuple[str, str]] = []
+        ic: Counter = Counter()
+        check_implicit(ctx, hkey, root, obj.graph if isinstance(obj, ir.Function) else obj, ic,
+                       fire_to=lambda sig, msg: fired.append((sig, msg)))
+        hc["analyses:" + phase] += ic["implicit_roots_checked"]
+        hc["analysed_nested_graphs:" + phase] += ic["implicit_nested_graphs_checked"]
+        final = {"t": "implicit", "root": root}
+        if fired:
+            report_history_implicit(ctx, hkey, typed, list(steps), final, fired, state)
+            return True
+        steps.append(final)
+        return False
+
+    def flags_for(gl, ins, outs):
+        in_f, out_f, _mode = draw_modes(gl, rng, ins, outs)
+        return in_f, out_f
+
+    broken = False
+    for _e in range(int(params.get("history_edits", 6))):
+        if ctx.out_of_time():
+            break
+        desc = ED.propose(model, rng, typed)
+        if desc is None:
+            hc["no_applicable_edit"] += 1
+            break
+        path = desc.get("path") or []
+        depths = [d for d in range(len(path) + 1) if ED.touched_index(desc, d) is not None] or [0]
+        d = rng.choice(depths + [0, len(path)] if len(path) in depths else depths + [0])
+        ref = {"root": desc["root"], "path": [list(x) for x in path[:d]], "view": "full" if d == 0 and rng.random() < 0.2 else None}
+        gl = resolve_gl(model, ref)
+        if gl is None or not gl.values:
+            continue
+        target = ED.touched_index(desc, d)
+        graph_obj = gl.obj if d > 0 else None
+        env = Env(model, False)
+        # --- call A: before the edit ---------------------------------------------------------------------------
+        chosen = []
+        for ins, outs, holds in _cuts_holding(gl, rng, target, int(params.get("history_cuts", 2))):
+            in_f, out_f = flags_for(gl, ins, outs)
+            if holds:
+                hc["cuts_before_edit_whose_region_holds_the_edit_site"] += 1
+            if judge(gl, env, ins, outs, in_f, out_f, "before-edit"):
+                broken = True
+                break
+            chosen.append((ins, outs, dict((id(v), b) for v, b in zip(ins, in_f)), dict((id(v), b) for v, b in zip(outs, out_f)), holds))
+        if broken or analyse(desc["root"], "before-edit"):
+            broken = True
+            break
+        # --- the edit ----------------------------------------------------------------------------------------------
+        cap_before = {id(sc.graph): set(sc.captured) for sc in ED.tree_of(model, desc["root"]).walk() if sc.parent is not None}
+        kind, exc = ED.apply(model, desc, typed)
+        if kind is None:
+            hc["edit_refused:" + desc["op"] + ":" + str(exc)] += 1
+            continue
+        steps.append({"t": "edit", "edit": desc, "kind": kind})
+        hc["edits_applied"] += 1
+        hc["edit:" + kind] += 1
+        tree = ED.tree_of(model, desc["root"])
+        cap_after = {id(sc.graph): set(sc.captured) for sc in tree.walk() if sc.parent is not None}
+        changed = any(cap_before.get(k) != v for k, v in cap_after.items()) or set(cap_before) != set(cap_after)
+        if changed:
+            hc["edits_changing_what_a_nested_graph_captures"] += 1
+        # --- call B: the same cut on the same (edited) objects -------------------------------------------------------
+        if graph_obj is not None:
+            p2 = ED.path_of_graph(tree, graph_obj)
+            if p2 is None:
+                hc["graph_cut_before_is_gone_after_edit"] += 1
+                chosen = []
+            else:
+                ref = dict(ref, path=p2)
+        gl = resolve_gl(model, ref) if chosen else None
+        env = Env(model, False)
+        live = {id(v) for v in gl.values} if gl is not None else set()
+        for ins, outs, fi, fo, holds in chosen if gl is not None else []:
+            if any(id(v) not in live for v in outs):
+                hc["recut_skipped_output_gone"] += 1
+                continue
+            ins = [v for v in ins if id(v) in live]
+            hc["recuts_same_cut_after_edit"] += 1
+            if holds:
+                hc["recuts_whose_region_held_the_edit_site"] += 1
+                if changed:
+                    hc["recuts_after_capture_change_in_region"] += 1
+                    nontrivial = True
+            if judge(gl, env, ins, outs, [fi[id(v)] for v in ins], [fo[id(v)] for v in outs], "after-edit"):
+                broken = True
+                break
+        if broken or analyse(desc["root"], "after-edit"):
+            broken = True
+            break
+        if changed:
+            hc["analyses_after_capture_change"] += 1
+        # one more cut of the edited root, drawn on the edited graph
+        gl2 = resolve_gl(model, {"root": desc["root"], "path": [], "view": None})
+        if gl2 is not None and gl2.values:
+            ins, outs, _s = random_cut(gl2, rng)
+            in_f, out_f = flags_for(gl2, ins, outs)
+            if judge(gl2, env, ins, outs, in_f, out_f, "after-edit"):
+                broken = True
+                break
+    # --- the edited model still computes what its regions compute -------------------------------------------------------
+    if typed and not broken and hc["edits_applied"] and not ctx.out_of_time():
+        for root in _roots(model)[:2]:
+            gl = resolve_gl(model, {"root": root, "path": [], "view": None})
+            if gl is None or not gl.values:
+                continue
+            env, source = _edited_source(model, hkey["seed"], gl, hc)
+            if source is None:
+                continue
+            ort_left = int(params.get("history_ort_cuts", 2))
+            for _ in range(int(params.get("history_exec_cuts", 6))):
+                ins, outs, _s = random_cut(gl, rng)
+                in_f, out_f = flags_for(gl, ins, outs)
+                events: list[str] = []
+                bad = judge(gl, env, ins, outs, in_f, out_f, "edited-model-executed",
+                            run_exec=_exec_runner(env, source, outs, events, ort=ort_left > 0), exec_flag=True, ort=ort_left > 0)
+                for ev in events:
+                    hc[ev] += 1
+                if "exec_compared:ort" in events:
+                    ort_left -= 1
+                if bad:
+                    broken = True
+                    break
+            if broken:
+                break
+    hc["histories"] += 1
+    for k, v in hc.items():
+        counts["history_" + k] += v
+    ctx.evaluation(key=stable_hash([key, "history"]), nontrivial=nontrivial)
+
+
+# =================================================================================================
 # run
 # =================================================================================================
 def _quiet() -> None:
@@ -1289,6 +1748,15 @@ def run_graphlike(ctx, key: dict, env: Env, case, gl: OR.GraphLike, rng: random.
 
 def run_model(ctx, key: dict, rng: random.Random, state: dict) -> None:
     counts = state["counts"]
+    t_model = time.process_time()
+    try:
+        _run_model(ctx, key, rng, state)
+    finally:
+        counts["cpu_ms:all"] += int(1000 * (time.process_time() - t_model))
+
+
+def _run_model(ctx, key: dict, rng: random.Random, state: dict) -> None:
+    counts = state["counts"]
     model, case, reason = build_model(key)
     if key["kind"] == "exec" and case is None:
         counts["reject:" + reason] += 1
@@ -1315,6 +1783,12 @@ def run_model(ctx, key: dict, rng: random.Random, state: dict) -> None:
         if gl is None:
             continue
         run_graphlike(ctx, key, env, case, gl, rng, state)
+    # extract -> edit in place -> extract again, on a fresh copy of the model (own random stream: the cuts above do not
+    # depend on it)
+    if not ctx.out_of_time():
+        t0 = time.process_time()
+        run_history(ctx, key, case, random.Random(f"{ctx.seed}:C18:history:{stable_hash(key)}"), state)
+        counts["cpu_ms:histories"] += int(1000 * (time.process_time() - t0))
 
 
 def run(ctx) -> None:
@@ -1327,7 +1801,7 @@ def run(ctx) -> None:
             pass
     counts: Counter = Counter()
     state = {"counts": counts, "exhaustive_left": int(ctx.params.get("exhaustive_start", 6000)), "ort_left": 0,
-             "free7": 1 if ctx.tier == "quick" else 4}
+             "free7": 1 if ctx.tier == "quick" else 4, "hist_reported": {}}
     per_case, cap = int(ctx.params.get("exhaustive_per_case", 260)), int(ctx.params.get("exhaustive_cap", 20000))
     for case_id in ctx.case_ids():
         state["exhaustive_left"] = min(cap, state["exhaustive_left"] + per_case)
@@ -1404,6 +1878,23 @@ def replay(replay_data, ctx) -> None:
         graph = _graph_at(model, replay_data["root"], path)
         check_implicit(ctx, {k: replay_data[k] for k in replay_data if k not in ("task", "root", "path")}, replay_data["root"], graph,
                        Counter(), path)
+        return
+    if replay_data.get("task") == "history":
+        hkey = {k: v for k, v in replay_data.items() if k not in ("task", "steps", "final", "clause", "detail", "signature")}
+        got = replay_history(hkey, replay_data["steps"], replay_data["final"], hkey["kind"] == "exec")
+        if got is None:
+            ctx.note("replay: the last call of the history can no longer be named")
+            return
+        if replay_data["clause"] == "implicit":
+            for sig0, msg0 in got:
+                if sig0 == replay_data["detail"]:
+                    ctx.violation(replay_data["signature"], f"{msg0}\n  at the last call of: "
+                                  f"{_describe_steps(replay_data['steps'] + [replay_data['final']])}", replay_data)
+            return
+        for clause, info in got[0].violations:
+            if clause == replay_data["clause"] and clause_detail(clause, info) == replay_data["detail"]:
+                ctx.violation(replay_data["signature"], f"{clause} ({replay_data['detail']}) at the last call of: "
+                              f"{_describe_steps(replay_data['steps'] + [dict(replay_data['final'], t='cut')])}\n  details: {info}", replay_data)
         return
     got = _replay_extract(replay_data)
     if got is None:
